@@ -47,7 +47,7 @@ class C12(Check):
     ID = 'C12'
     TRACE_FILES = ('client/__init__.py',)
     TIERS = {'quick': {'runs': 9000, 'wall': 80}, 'thorough': {'runs': 300000, 'wall': 800}}
-    RULE = ('case = (peer mode) generated description + <= 30 messages {update, error_update, reply, changed, '
+    RULE = ('[a third of the cases: the accepting side takes only 16 or 40 bytes at a time; e2e: writes to read-only parameters which the node refuses; peer restart with another description] ' 'case = (peer mode) generated description + <= 30 messages {update, error_update, reply, changed, '
             'error_read; unknown parameter, module shorthand, malformed, future timestamp} + callback '
             '(un)registrations at node/module/parameter level incl. raising and one-shot callbacks; or (e2e / proxy '
             'mode) generated node with recording drivers + setParameter/getParameter/execCommand with valid values of '
